@@ -308,7 +308,15 @@ fn run() {
     let replay = std::env::var("VERIF_REPLAY").ok();
     match prop.as_str() {
         "C05" => c05::run(&mut report, replay.as_deref()),
-        "C01" | "C02" | "C03" | "C04" | "C06" | "C12" => core::run(&mut report, replay.as_deref()),
+        "C01" | "C02" | "C03" | "C04" | "C06" | "C12" => {
+            core::run(&mut report, replay.as_deref());
+            if prop == "C12" || prop == "C04" {
+                // the prune half of C12 and the lock half of C04 live in the update layer
+                let rule = report.rule.clone();
+                updrun::run(&mut report, replay.as_deref());
+                report.rule = format!("{rule} + prune half: {}", report.rule);
+            }
+        }
         "C09" | "C10" | "C11" | "C13" => {
             updrun::run(&mut report, replay.as_deref());
             cmd::run(&mut report);
